@@ -16,6 +16,7 @@ by the driver on large documents.
 import SuccinctlyVerif.Spec.Bits
 import SuccinctlyVerif.Spec.BP
 import SuccinctlyVerif.Spec.Utf8
+import SuccinctlyVerif.Spec.JsonSimple
 import SuccinctlyVerif.Model.JsonSemi
 namespace SV.JsonNav
 open SV SV.JsonSemi
@@ -438,5 +439,61 @@ def elementsGetFast (x : Index) (p : Nat) (index : Nat) : Option Nat :=
         | none => none
         | some c' => go n c'
     go index c
+
+/-! ### reconstructing the whole value by navigation -/
+
+/-- The value read off an index by navigation: what a caller obtains by walking `value()`,
+`JsonFields::uncons` (fields in source order, duplicates kept), the `children` iterator, `as_str()`
+(decoded UTF-8 bytes or the error) and `JsonNumber::raw_bytes()` (numbers as literal text). -/
+inductive Val where
+  | null
+  | bool (b : Bool)
+  | num (lit : List Byte)
+  | str (r : Except JErr (List Byte))
+  | arr (xs : List Val)
+  | obj (fs : List (Val × Val))
+  | err
+
+/-- Walk the tree below cursor `p` (`fuel` bounds the nesting depth). -/
+def reconstruct (x : Index) : Nat → Nat → Val
+  | 0, _ => .err
+  | fuel + 1, p =>
+    match value x p with
+    | .obj _ => .obj ((objectFields x p).map fun kv => (reconstruct x fuel kv.1, reconstruct x fuel kv.2))
+    | .arr _ => .arr ((children x p).map (reconstruct x fuel))
+    | .str s => .str (asStr x s)
+    | .num s => .num (numberBytes x s)
+    | .bool b => .bool b
+    | .null => .null
+    | .err _ => .err
+
+/-- `as_str` as a function of the bytes between the quotes. -/
+def decodeBody (bs : List Byte) : Except JErr (List Byte) :=
+  if !bs.contains 0x5C#8 then
+    if Utf8.wellFormed bs then .ok bs else .error .invalidUtf8
+  else decodeEscapes bs
+
+open SV.JsonText in
+mutual
+  /-- The value a document tree denotes: literals, numbers as their literal text, strings decoded
+  from the bytes between their quotes, array elements in order, object fields in source order with
+  duplicates. -/
+  def valueOf : JVal → Val
+    | .lit .tru => .bool true
+    | .lit .fls => .bool false
+    | .lit .null => .null
+    | .num n => .num n.bytes
+    | .str b => .str (decodeBody (b.flatMap SChar.bytes))
+    | .arr0 _ => .arr []
+    | .obj0 _ => .obj []
+    | .arr _ v _ rest => .arr (valueOf v :: itemsOf rest)
+    | .obj _ k _ _ v _ rest => .obj ((.str (decodeBody (k.flatMap SChar.bytes)), valueOf v) :: membersOf rest)
+  def itemsOf : JItems → List Val
+    | .nil => []
+    | .cons _ v _ rest => valueOf v :: itemsOf rest
+  def membersOf : JMembers → List (Val × Val)
+    | .nil => []
+    | .cons _ k _ _ v _ rest => (.str (decodeBody (k.flatMap SChar.bytes)), valueOf v) :: membersOf rest
+end
 
 end SV.JsonNav
